@@ -37,7 +37,7 @@
         res matches Err(SolverError::Infeasible) ==> exists|vs: Seq<GVar>, rs: Seq<GRow>, d: OptimizationDirection| #[trigger] built(vs, rs, d, *lp) && forall|x: Seq<real>| !gfeasible(vs, rs, x),
         res matches Err(SolverError::Unbounded) ==> exists|vs: Seq<GVar>, rs: Seq<GRow>, d: OptimizationDirection| #[trigger] built(vs, rs, d, *lp) && exists|x: Seq<real>| gfeasible(vs, rs, x),
         // C15: invalid gaps are rejected
-        options.mip_gap matches Some(g) && !(fv(g) is Fin && rv(g) >= 0real) ==> res is Err,
+        (options.mip_gap matches Some(g) && !(fv(g) is Fin && rv(g) >= 0real)) ==> res is Err,
 @fn solve_milp_lp_problem_with @lettype microlp_vars
     Vec<Variable>
 @fn solve_milp_lp_problem_with @lettype vx_out4
